@@ -27,3 +27,38 @@ package federation
 //@   loop 1 invariant (last == nil || (fresh(last) && allocated(last))) && (isLastSelectionSetCopied ==> last != nil && ownSet(last.SelectionSet))
 //@   loop 2 invariant last != nil && fresh(last) && allocated(last) && ownSet(last.SelectionSet)
 //@   loop 3 invariant last != nil && fresh(last) && allocated(last) && ownSet(last.SelectionSet)
+
+// ---- C19 (gateway consumers): the planner and the flattener include a selection or a fragment only after
+// graphql.ShouldIncludeNode approved that node's own directives (ghost approval token, as in package graphql).
+//@ nonnil elem *graphql.Fragment, elem *graphql.Selection
+//@ nonnil graphql.Fragment.SelectionSet
+//@ func flattener.flattenFragments
+//@   requires f != nil && selectionSet != nil && target != nil
+//@   ghost approved *graphql.Fragment
+//@   call ShouldIncludeNode assert arg0 == fragment.Directives
+//@   call ShouldIncludeNode ghost approved = ite(ret0 && ret1 == nil, fragment, nil)
+//@   call flattener.applies assert approved == fragment && arg2 == fragment && arg1 == typ
+//@   call flattener.flattenFragments assert approved == fragment && arg1 == fragment.SelectionSet && arg2 == typ && arg3 == target
+
+//@ func Planner.planObject
+//@   requires e != nil && typ != nil && selectionSet != nil
+//@   ghost approved *graphql.Selection
+//@   call ShouldIncludeNode assert arg0 == selection.Directives
+//@   call ShouldIncludeNode ghost approved = ite(ret0 && ret1 == nil, selection, nil)
+//@   call append#1 assert approved == selection
+//@   call append#2 assert approved == selection
+//@   call append#3 assert approved == selection
+//@   call Planner.selectService assert approved == selection && arg3 == selection
+
+// ---- C09 (folds): a service's schema is the fold of ALL of its versions - each step merges the running result with
+// the next version in the requested mode, and every version of the service is handed to the fold, in sorted order.
+//@ func mergeSchemaSlice
+//@   call mergeSchemas assert arg0 == merged && arg1 == schema && arg2 == mode
+//@   ensures err == nil && len(schemas) == 1 ==> result == old(schemas[0])
+//@   loop 1 invariant -1 <= rangeindex && rangeindex < len(schemas) - 1 && (rangeindex == 0 - 1 ==> merged == old(schemas[0]))
+//@   ensures len(schemas) == 0 ==> err != nil
+
+//@ func processSchemaVersions
+//@   keeps map[string]map[string]*IntrospectionQueryResult, map[string]*IntrospectionQueryResult, []string
+//@   call mergeSchemaSlice assert arg1 == Intersection && len(arg0) == len(versionNames) && (forall k int :: 0 <= k && k < len(versionNames) ==> arg0[k] == versions[versionNames[k]])
+//@   loop 4 invariant -1 <= rangeindex && rangeindex < len(versionNames) && len(versionSchemas) == rangeindex+1 && (versionSchemas == nil || fresh(versionSchemas)) && (forall k int :: 0 <= k && k <= rangeindex ==> versionSchemas[k] == versions[versionNames[k]])
